@@ -20,8 +20,19 @@ func init() { registry["C01"] = c01 }
 
 // verifierFn: a custom bool function all of whose possibly-true returns are the result of the Merkle library verification.
 func verifierFn(p *core.Program, fn *ssa.Function) (*ssa.Call, bool) {
-	if fn == nil || fn.Blocks == nil || fn.Signature.Results().Len() != 1 {
+	if fn == nil || fn.Blocks == nil || fn.Signature.Results().Len() != 1 || fn.Signature.Results().At(0).Type().String() != "bool" {
 		return nil, false
+	}
+	libOf := func(v ssa.Value) *ssa.Call {
+		ex, isEx := v.(*ssa.Extract)
+		if !isEx || ex.Index != 0 {
+			return nil
+		}
+		call, isCall := ex.Tuple.(*ssa.Call)
+		if !isCall || !strings.HasSuffix(core.CalleeFullName(call), merkleLib) {
+			return nil
+		}
+		return call
 	}
 	var lib *ssa.Call
 	ok := true
@@ -38,20 +49,43 @@ func verifierFn(p *core.Program, fn *ssa.Function) (*ssa.Call, bool) {
 			if c, isC := lf.(*ssa.Const); isC && c.Value != nil && c.Value.ExactString() == "false" {
 				continue
 			}
-			ex, isEx := lf.(*ssa.Extract)
-			if !isEx || ex.Index != 0 {
-				ok = false
+			if call := libOf(lf); call != nil {
+				lib = call
 				continue
 			}
-			call, isCall := ex.Tuple.(*ssa.Call)
-			if !isCall || !strings.HasSuffix(core.CalleeFullName(call), merkleLib) {
-				ok = false
-				continue
-			}
-			lib = call
+			ok = false
 		}
 	}
-	return lib, ok && n > 0 && lib != nil
+	if ok && n > 0 && lib != nil {
+		return lib, true
+	}
+	// the verdict assembled through variables (`verified = err == nil && ok`, named result, single exit): on every
+	// execution that may return true, the library's verdict was evaluated true or is the value returned
+	execs, complete := p.AbstractExecutions(fn)
+	if !complete || len(execs) == 0 {
+		return nil, false
+	}
+	lib = nil
+	for i := range execs {
+		e := &execs[i]
+		if e.Ret == nil || (e.RetKnown[0] && !e.RetBool[0]) {
+			continue
+		}
+		if call := libOf(e.RetVals[0]); call != nil {
+			lib = call
+			continue
+		}
+		good := false
+		for v, tv := range e.Vals {
+			if call := libOf(v); call != nil && tv {
+				lib, good = call, true
+			}
+		}
+		if !good {
+			return nil, false
+		}
+	}
+	return lib, lib != nil
 }
 
 // proverFn: a custom function with an error result whose every possibly-nil return passed verifierFn(...)=true.
@@ -80,6 +114,9 @@ func proverFn(p *core.Program, fn *ssa.Function) (*ssa.Call, bool) {
 		}
 		// a commit return reachable from entry without the verification pass-edge?
 		if core.PathExists(fn, removed, fn.Blocks[0].Instrs[0], ri.Ret) {
+			if holds, ok := p.AbsEveryCommit(fn, g); ok && holds {
+				continue
+			}
 			return vcall, false
 		}
 	}
